@@ -65,7 +65,10 @@ def one(m, args):
             res["tests"] = st.run_tests(d)
         res["checks"] = st.run_checks(d, m["checks"], args.tier, args.workers)
         # keep the alarm texts: they are what has to be triaged
-        res["alarms"] = sorted(c for c, v in res["checks"].items() if v["rc"] == 1)
+        # a change written to preserve ONE property may break another one for real (triaged by hand, recorded in its
+        # meta.json as "breaks": {"Cxx": "why"}): such alarms are the checks doing their job, not false alarms
+        res["expected_alarms"] = sorted(c for c, v in res["checks"].items() if v["rc"] == 1 and c in m.get("breaks", {}))
+        res["alarms"] = sorted(c for c, v in res["checks"].items() if v["rc"] == 1 and c not in m.get("breaks", {}))
         res["inconclusive"] = sorted(c for c, v in res["checks"].items() if v["rc"] not in (0, 1))
         res["silent"] = not res["alarms"] and not res["inconclusive"]
         return name, res
@@ -93,7 +96,8 @@ def main():
         cs = args.checks.split(",") if args.checks else checks_for(patch, j["property"], args.all_checks)
         if args.skip:
             cs = [c for c in cs if c == j["property"] or c not in args.skip.split(",")]
-        muts.append({"name": meta.parent.name, "prop": j["property"], "kind": j.get("kind"), "patch": str(patch), "checks": cs})
+        muts.append({"name": meta.parent.name, "prop": j["property"], "kind": j.get("kind"), "patch": str(patch), "checks": cs,
+                     "breaks": j.get("breaks", {})})
     if args.only:
         muts = [m for m in muts if args.only in m["name"]]
     if args.prop:
@@ -112,7 +116,9 @@ def main():
                 merged = dict(latest[name]["checks"])
                 merged.update(res["checks"])
                 res["checks"] = merged
-                res["alarms"] = sorted(c for c, v in merged.items() if v["rc"] == 1)
+                brk = next((m_.get("breaks", {}) for m_ in muts if m_["name"] == name), {})
+                res["expected_alarms"] = sorted(c for c, v in merged.items() if v["rc"] == 1 and c in brk)
+                res["alarms"] = sorted(c for c, v in merged.items() if v["rc"] == 1 and c not in brk)
                 res["inconclusive"] = sorted(c for c, v in merged.items() if v["rc"] not in (0, 1))
                 res["silent"] = not res["alarms"] and not res["inconclusive"]
             latest[name] = res
